@@ -2,6 +2,7 @@ package action
 
 import (
 	"encoding/json"
+	"math/big"
 
 	"github.com/Oneledger/protocol/data/balance"
 	"github.com/Oneledger/protocol/data/keys"
@@ -70,6 +71,12 @@ func (a Amount) ToCoinWithBase(list *balance.CurrencySet) balance.Coin {
 	currency, ok := list.GetCurrencyByName(a.Currency)
 	if !ok {
 		return balance.Coin{}
+	}
+
+	// a value beyond int64 must not be truncated: scale it with big integers
+	if !a.Value.BigInt().IsInt64() {
+		scaled := big.NewInt(0).Mul(a.Value.BigInt(), currency.Base())
+		return currency.NewCoinFromAmount(*balance.NewAmountFromBigInt(scaled))
 	}
 
 	// parse float string
